@@ -3,7 +3,7 @@ CONSTANTS
   MaxLen = 5
   Prefix <- PfxTm
   Suffix <- SfxName
-  ExtChoices <- ExtAllNone
+  ExtChoices <- ExtMany
   OsmChoices <- OnlyOsm
 INIT MCInit
 NEXT MCNext
